@@ -46,11 +46,25 @@ theorem printSegs_eq (segs : List Seg) : printList (segsTpl segs) = printSegs se
 
 def plainL (l : List Nat) : Prop := ∀ x ∈ l, plainU x
 
+/-- the text of a `{math:}` expression as the finder sees it: plain stretches and `{var:path}`
+operands -/
+def printMP : List (List Nat × List Nat) → List Nat
+  | [] => []
+  | (t, p) :: r => t ++ ([123, 118, 97, 114, 58] ++ p ++ [125]) ++ printMP r
+
+/-- expression texts of `{math:}`: any text whose only `{ < }` are those of `{var:path}` operands -/
+def MathOk (e : List Nat) : Prop :=
+  ∃ (parts : List (List Nat × List Nat)) (last : List Nat), e = printMP parts ++ last ∧ plainL last ∧
+    ∀ tp ∈ parts, plainL tp.1 ∧ plainL tp.2
+
+theorem MathOk.of_plain (e : List Nat) (h : plainL e) : MathOk e :=
+  ⟨[], e, by simp [printMP], h, by intro tp htp; cases htp⟩
+
 def Seg.ok : Seg → Prop
   | .text s => plainL s
   | .var p => plainL p ∧ 0 < p.length ∧ p.length ≤ 255
   | .raw p => plainL p ∧ 0 < p.length ∧ p.length ≤ 255
-  | .math e => plainL e
+  | .math e => MathOk e
 
 variable {R : Type}
 
@@ -156,13 +170,29 @@ theorem isExpression_after_colon (A rest : List Nat) :
     decide
   simp only [Qentem.Expr.isExpression, hrd, bind, Except.bind, h1, h2, h3, if_false]
 
+/-- a `{var:…}` operand of an expression text scanned alone and its copy `k` units into the content,
+outside every loop -/
+def PvTop (k n : Nat) (v v' : VarRef) : Prop := v' = ⟨k + v.off, v.len, 0, 0⟩ ∧ v.off + v.len < n
+
+/-- the relation the relocated scan establishes at top level (no open loop) -/
+theorem pvTop_scan (cfg : ScanCfg R) (c : List Nat) (k : Nat) (ct : List Nat) (off en : Nat)
+    (h2 : off + 5 < en) (h3 : ct[en]? = some 125) :
+    PvTop k ct.length (Qentem.Expr.scanVar ({ readNum := cfg.readNum } : ScanCfg R) off en)
+      (Qentem.Expr.scanVar ({ cfg with loopVar := loopVarPure c [] } : ScanCfg R) (k + off) (k + en)) := by
+  have hen : en < ct.length := (List.getElem?_eq_some_iff.mp h3).1
+  have hm := Nat.mod_le (en - (off + 5)) (2 ^ Qentem.Generated.Expr.variableLengthBits)
+  refine ⟨?_, ?_⟩
+  · simp only [Qentem.Expr.scanVar, loopVarPure, checkLoopVariable]
+    rw [show k + en - (k + off + 5) = en - (off + 5) by omega, show k + off + 5 = k + (off + 5) by omega]
+  · simp only [Qentem.Expr.scanVar]; omega
+
 /-- the expression of a `{math:e}` tag scanned in place: the scan of `e` alone, moved -/
 theorem exprs_math (cfg : ScanCfg R) (c pre e post : List Nat)
-    (hc : c = pre ++ (([123, 109, 97, 116, 104, 58] ++ e ++ [125]) ++ post)) (hp : plainL e)
+    (hc : c = pre ++ (([123, 109, 97, 116, 104, 58] ++ e ++ [125]) ++ post))
     (items : List (Item R))
     (hs : Qentem.Expr.parseTop ({ readNum := cfg.readNum } : ScanCfg R) (e ++ [125]) 0 e.length = .ok items) :
     ∃ items', exprs cfg c [] (pre.length + 6) (pre.length + 6 + e.length) = .ok items' ∧
-      Qentem.Expr.RelItems (pre.length + 6) (e.length + 1) items items' := by
+      Qentem.Expr.RelItems (PvTop (pre.length + 6) (e.length + 1)) (pre.length + 6) (e.length + 1) items items' := by
   have hc' : c = ((pre ++ [123, 109, 97, 116, 104]) ++ [58]) ++ (e ++ [125]) ++ post := by
     rw [hc]; simp [List.append_assoc]
   have hlen : ((pre ++ [123, 109, 97, 116, 104]) ++ [58]).length = pre.length + 6 := by simp
@@ -170,62 +200,169 @@ theorem exprs_math (cfg : ScanCfg R) (c pre e post : List Nat)
   rw [← List.append_assoc] at hbefore
   have hrel := Qentem.Expr.Reloc.of_append ((pre ++ [123, 109, 97, 116, 104]) ++ [58]) (e ++ [125]) post hbefore
   rw [← hc', hlen] at hrel
-  have hno : ∀ (i x : Nat), (e ++ [125])[i]? = some x → x ≠ Qentem.Expr.cBOpen := by
-    intro i x hx
-    have hmem : x ∈ e ++ [125] := List.mem_of_getElem? hx
-    rcases List.mem_append.mp hmem with h | h
-    · exact (hp x h).1
-    · simp at h; subst h; decide
-  obtain ⟨items', h1, h2⟩ := Qentem.Expr.parseTop_reloc ({ readNum := cfg.readNum } : ScanCfg R)
-    { cfg with loopVar := loopVarPure c [] } rfl hrel hno 0 e.length (by simp) items hs
+  obtain ⟨items', h1, h2⟩ := Qentem.Expr.parseTop_relocV ({ readNum := cfg.readNum } : ScanCfg R)
+    { cfg with loopVar := loopVarPure c [] } rfl hrel (PvTop (pre.length + 6) (e.length + 1))
+    (by
+      intro off en _ h2 h3
+      have := pvTop_scan cfg c (pre.length + 6) (e ++ [125]) off en h2 h3
+      simpa using this)
+    0 e.length (by simp) items hs
   refine ⟨items', ?_, ?_⟩
   · simpa [exprs] using h1
   · simpa using h2
 
-/-- one `{math:e}` at `pre.length`, handled by `stepMath` -/
+theorem next_run (c A t rest : List Nat) (hc : c = A ++ (t ++ rest)) (ht : plainL t) :
+    next c A.length = next c (A.length + t.length) := by
+  apply next_skip c t.length A.length
+  · rw [hc]; simp
+  · intro i hi
+    rw [hc]; exact plain_at A t rest ht i hi
+
+theorem printMP_cons_len (t p : List Nat) (r : List (List Nat × List Nat)) (last : List Nat) :
+    (printMP ((t, p) :: r) ++ last).length = t.length + 5 + p.length + 1 + (printMP r ++ last).length := by
+  simp [printMP]; omega
+
+/-- the `while (true)` of `case MathID` over the operands of the expression text: every
+`{var:path}` is skipped, the `}` after the last stretch ends the tag -/
+theorem mathScan_parts (c : List Nat) (hn : c.length + 16 < 4294967296) (stk : List (Frame R))
+    (acc : List (Tag R)) (last post : List Nat) (hl : plainL last) :
+    ∀ (parts : List (List Nat × List Nat)) (A : List Nat) (fuel o m o' m' : Nat),
+      c = A ++ (printMP parts ++ last ++ [125] ++ post) → (∀ tp ∈ parts, plainL tp.1 ∧ plainL tp.2) →
+      parts.length + 1 ≤ fuel →
+      next c A.length = .ok (o, m) →
+      next c (A.length + (printMP parts ++ last).length + 1) = .ok (o', m') →
+      mathScan c fuel (stAt stk acc o m : PState R) 0 =
+        .ok (stAt stk acc o' m', A.length + (printMP parts ++ last).length + 1) := by
+  have hle : W1.lineEndID = 1 := by decide
+  have hmi : W1.mathID = 4 := by decide
+  intro parts
+  induction parts with
+  | nil =>
+    intro A fuel o m o' m' hc _ hf hnext hfin
+    simp only [printMP, List.nil_append] at hc hfin ⊢
+    have hc1 : c = A ++ (last ++ ([125] ++ post)) := by rw [hc]; simp [List.append_assoc]
+    have hrun := next_run c A last _ hc1 hl
+    have hclose : next c (A.length + last.length) = .ok (A.length + last.length + 1, 1) := by
+      apply next_at_close
+      have := get_mid (A ++ last) [125] post 0 (by simp)
+      simpa [hc, List.append_assoc] using this
+    rw [hrun, hclose] at hnext
+    simp only [Except.ok.injEq, Prod.mk.injEq] at hnext
+    obtain ⟨rfl, rfl⟩ := hnext
+    obtain ⟨f, rfl⟩ : ∃ f, fuel = f + 1 := ⟨fuel - 1, by omega⟩
+    have h2 : finderNext c (stAt stk acc (A.length + last.length + 1) 1) = .ok (stAt stk acc o' m') :=
+      finderNext_stAt c stk acc _ 1 _ _ hfin
+    have hm : (stAt stk acc (A.length + last.length + 1) 1 : PState R).mtch = 1 := rfl
+    simp only [mathScan, hm, hle, ne_eq, not_true_eq_false, and_false, if_false, pure, Except.pure, bind,
+      Except.bind, if_true, h2]
+    rfl
+  | cons tp r ih =>
+    obtain ⟨t, p⟩ := tp
+    intro A fuel o m o' m' hc hall hf hnext hfin
+    have htp := hall (t, p) (List.mem_cons_self ..)
+    simp only at htp
+    have hallr : ∀ tp ∈ r, plainL tp.1 ∧ plainL tp.2 := fun x hx => hall x (List.mem_cons_of_mem _ hx)
+    simp only [List.length_cons] at hf
+    obtain ⟨f, rfl⟩ : ∃ f, fuel = f + 1 := ⟨fuel - 1, by omega⟩
+    have hc1 : c = A ++ (t ++ ([123, 118, 97, 114, 58] ++ p ++ [125] ++ (printMP r ++ last ++ [125] ++ post))) := by
+      rw [hc]; simp [printMP, List.append_assoc]
+    have hrun := next_run c A t _ hc1 htp.1
+    have g := fun i (hi : i < 5) => get_mid (A ++ t) [123, 118, 97, 114, 58]
+      (p ++ [125] ++ (printMP r ++ last ++ [125] ++ post)) i (by simpa using hi)
+    have hc2 : c = (A ++ t) ++ ([123, 118, 97, 114, 58] ++ (p ++ [125] ++ (printMP r ++ last ++ [125] ++ post))) := by
+      rw [hc1]; simp [List.append_assoc]
+    have hlat : (A ++ t).length = A.length + t.length := by simp
+    have hvar : next c (A.length + t.length) = .ok (A.length + t.length + 5, 2) := by
+      rw [← hlat]
+      apply next_at_var c _ (by omega)
+      · have := g 0 (by omega); rw [hc2]; simpa using this
+      · have := g 1 (by omega); rw [hc2]; simpa using this
+      · have := g 2 (by omega); rw [hc2]; simpa using this
+      · have := g 3 (by omega); rw [hc2]; simpa using this
+      · have := g 4 (by omega); rw [hc2]; simpa using this
+    rw [hrun, hvar] at hnext
+    simp only [Except.ok.injEq, Prod.mk.injEq] at hnext
+    obtain ⟨rfl, rfl⟩ := hnext
+    have hc3 : c = (A ++ t ++ [123, 118, 97, 114, 58]) ++ (p ++ ([125] ++ (printMP r ++ last ++ [125] ++ post))) := by
+      rw [hc1]; simp [List.append_assoc]
+    have hl3 : (A ++ t ++ [123, 118, 97, 114, 58]).length = A.length + t.length + 5 := by simp; omega
+    have hrun2 := next_run c _ p _ hc3 htp.2
+    rw [hl3] at hrun2
+    have hclose : next c (A.length + t.length + 5 + p.length) = .ok (A.length + t.length + 5 + p.length + 1, 1) := by
+      apply next_at_close
+      have := get_mid (A ++ t ++ [123, 118, 97, 114, 58] ++ p) [125] (printMP r ++ last ++ [125] ++ post) 0 (by simp)
+      have hl5 : (A ++ t ++ [123, 118, 97, 114, 58] ++ p).length + 0 = A.length + t.length + 5 + p.length := by
+        simp; omega
+      rw [hl5] at this
+      have hX : c = (A ++ t ++ [123, 118, 97, 114, 58] ++ p) ++ ([125] ++ (printMP r ++ last ++ [125] ++ post)) := by
+        rw [hc1]; simp [List.append_assoc]
+      rw [hX, this]; rfl
+    have hc4 : c = (A ++ (t ++ ([123, 118, 97, 114, 58] ++ p ++ [125]))) ++ (printMP r ++ last ++ [125] ++ post) := by
+      rw [hc1]; simp [List.append_assoc]
+    have hl4 : (A ++ (t ++ ([123, 118, 97, 114, 58] ++ p ++ [125]))).length = A.length + t.length + 5 + p.length + 1 := by
+      simp; omega
+    have hle4 : A.length + t.length + 5 + p.length + 1 ≤ c.length := by
+      rw [← hl4, hc4]; simp
+    obtain ⟨o2, m2, hn2, _⟩ := next_safe_total c _ hle4
+    have hih := ih (A ++ (t ++ ([123, 118, 97, 114, 58] ++ p ++ [125]))) f o2 m2 o' m' hc4 hallr (by omega)
+      (by rw [hl4]; exact hn2)
+      (by rw [hl4, ← hfin, printMP_cons_len]; congr 1; omega)
+    rw [hl4] at hih
+    have h1 : finderNext c (stAt stk acc (A.length + t.length + 5) 2) =
+        .ok (stAt stk acc (A.length + t.length + 5 + p.length + 1) 1) :=
+      finderNext_stAt c stk acc _ 2 _ _ (by rw [hrun2, hclose])
+    have h2 : finderNext c (stAt stk acc (A.length + t.length + 5 + p.length + 1) 1) = .ok (stAt stk acc o2 m2) :=
+      finderNext_stAt c stk acc _ 1 _ _ hn2
+    have hm : (stAt stk acc (A.length + t.length + 5) 2 : PState R).mtch = 2 := rfl
+    have hm1 : (stAt stk acc (A.length + t.length + 5 + p.length + 1) 1 : PState R).mtch = 1 := rfl
+    have hcond : (2 : Nat) < 4 ∧ (2 : Nat) ≠ 1 := by decide
+    simp only [mathScan, hm, hle, hmi, hcond, and_self, if_true, h1, bind, Except.bind, pure, Except.pure, hm1,
+      ne_eq, show ¬ ((0 : Nat) + 1 = 0) by omega, not_false_eq_true, h2, Nat.add_sub_cancel]
+    rw [hih, printMP_cons_len]
+    congr 2
+    omega
+
+/-- `{math:e}` at `pre.length`: `stepMath` appends the Math tag with the scanned list -/
 theorem stepMath_seg (cfg : ScanCfg R) (c : List Nat) (hn : c.length + 16 < 4294967296)
     (pre e post : List Nat) (w : List Nat) (hw : w.length = 6)
-    (hc : c = pre ++ ((w ++ e ++ [125]) ++ post)) (hp : plainL e)
+    (hc : c = pre ++ ((w ++ e ++ [125]) ++ post)) (hp : MathOk e)
     (stk : List (Frame R)) (acc : List (Tag R)) (o' m' : Nat)
     (hnext : next c (pre.length + 6 + e.length + 1) = .ok (o', m'))
     (items : List (Item R))
     (hex : exprs cfg c [] (pre.length + 6) (pre.length + 6 + e.length) = .ok items) :
     stepMath cfg c (stAt stk acc (pre.length + 6) 4) =
       .ok (stAt stk (acc ++ [.math items pre.length (pre.length + 6 + e.length + 1)]) o' m') := by
-  have hskip : next c (pre.length + 6) = next c (pre.length + 6 + e.length) := by
-    apply next_skip c e.length (pre.length + 6)
-    · rw [hc]; simp; omega
-    · intro i hi
-      have := plain_at (pre ++ w) e ([125] ++ post) hp i hi
-      simpa [hc, List.append_assoc, hw, Nat.add_assoc] using this
-  have hclose : next c (pre.length + 6 + e.length) = .ok (pre.length + 6 + e.length + 1, 1) := by
-    apply next_at_close
-    have := get_mid (pre ++ w ++ e) [125] post 0 (by simp)
-    simpa [hc, List.append_assoc, hw, Nat.add_assoc] using this
-  have h1 : finderNext c (stAt stk acc (pre.length + 6) 4) =
-      .ok (stAt stk acc (pre.length + 6 + e.length + 1) 1) :=
-    finderNext_stAt c stk acc _ 4 _ _ (by rw [hskip, hclose])
-  have h2 : finderNext c (stAt stk acc (pre.length + 6 + e.length + 1) 1) = .ok (stAt stk acc o' m') :=
-    finderNext_stAt c stk acc _ 1 _ _ hnext
-  have hscan : mathScan c (c.length + 2) (stAt stk acc (pre.length + 6 + e.length + 1) 1 : PState R) 0 =
-      .ok (stAt stk acc o' m', pre.length + 6 + e.length + 1) := by
-    rw [show c.length + 2 = (c.length + 1) + 1 by omega]
-    have hm : (stAt stk acc (pre.length + 6 + e.length + 1) 1 : PState R).mtch = 1 := rfl
-    have hle : W1.lineEndID = 1 := by decide
-    simp only [mathScan, hm, hle, ne_eq, not_true_eq_false, and_false, if_false, pure, Except.pure, bind,
-      Except.bind, if_true, h2]
-    rfl
+  obtain ⟨parts, last, rfl, hl, hall⟩ := hp
+  have hc1 : c = (pre ++ w) ++ (printMP parts ++ last ++ [125] ++ post) := by
+    rw [hc]; simp [List.append_assoc]
+  have hl1 : (pre ++ w).length = pre.length + 6 := by simp [hw]
+  have hle1 : pre.length + 6 ≤ c.length := by rw [← hl1, hc1]; simp
+  obtain ⟨o1, m1, hn1, _⟩ := next_safe_total c _ hle1
+  have hplen : parts.length + 1 ≤ c.length + 2 := by
+    have : parts.length ≤ (printMP parts).length := by
+      clear hc hc1 hall hnext hex
+      induction parts with
+      | nil => simp
+      | cons tp r ih => obtain ⟨t, p⟩ := tp; simp [printMP] at ih ⊢; omega
+    have : (printMP parts).length ≤ c.length := by rw [hc1]; simp; omega
+    omega
+  have hscan := mathScan_parts c hn stk acc last post hl parts (pre ++ w) (c.length + 2) o1 m1 o' m' hc1 hall hplen
+    (by rw [hl1]; exact hn1) (by rw [hl1]; exact hnext)
+  rw [hl1] at hscan
+  have h1 : finderNext c (stAt stk acc (pre.length + 6) 4) = .ok (stAt stk acc o1 m1) :=
+    finderNext_stAt c stk acc _ 4 _ _ hn1
   simp only [stepMath, h1, hscan, bind, Except.bind]
   have hoff : (stAt stk acc (pre.length + 6) 4 : PState R).off = pre.length + 6 := rfl
   have hch : (stAt stk acc o' m' : PState R).loopChain = [] := rfl
-  have hsuf : pre.length + 6 + e.length + 1 - W1.inLineSuffixLength = pre.length + 6 + e.length := by
+  have hsuf : pre.length + 6 + (printMP parts ++ last).length + 1 - W1.inLineSuffixLength =
+      pre.length + 6 + (printMP parts ++ last).length := by
     have : W1.inLineSuffixLength = 1 := by decide
     rw [this]; omega
   have hpre : pre.length + 6 - W1.mathPrefixLength = pre.length := by
     have : W1.mathPrefixLength = 6 := by decide
     rw [this]; omega
-  simp only [hoff, hch, hsuf, hpre, hex, ne_eq, show ¬ (pre.length + 6 + e.length + 1 = 0) by omega,
-    not_false_eq_true, if_true]
+  simp only [hoff, hch, hsuf, hpre, hex, ne_eq,
+    show ¬ (pre.length + 6 + (printMP parts ++ last).length + 1 = 0) by omega, not_false_eq_true, if_true]
   rfl
 
 theorem step_var_dispatch (cfg : ScanCfg R) (c : List Nat) (stk : List (Frame R)) (acc : List (Tag R)) (o : Nat) :
@@ -383,7 +520,7 @@ theorem parseMain_segs (cfg : ScanCfg R) (c : List Nat) (hn : c.length + 16 < 42
       have hlen_le : pre.length + 6 + e.length + 1 ≤ c.length := by rw [hc]; simp; omega
       obtain ⟨o1, m1, hn1, _⟩ := next_safe_total c (pre.length + 6 + e.length + 1) hlen_le
       obtain ⟨items', hex, _⟩ := exprs_math cfg c pre e (printSegs rest ++ post)
-        (by rw [hc]; simp [List.append_assoc]) hsg items0 hitems0
+        (by rw [hc]; simp [List.append_assoc]) items0 hitems0
       have hstep := stepMath_seg cfg c hn pre e (printSegs rest ++ post) [123, 109, 97, 116, 104, 58] rfl
         (by rw [hc]; simp [List.append_assoc]) hsg stk acc o1 m1 hn1 items' hex
       rw [show fuel + nTags (Seg.math e :: rest) = (fuel + nTags rest) + 1 by simp [nTags]; omega]
